@@ -22,8 +22,10 @@ Section Model.
   Variable ltb : A -> A -> bool.
   (** multisequence_partition(seqs, rank) -> one offset per sequence *)
   Variable partition : list (list A) -> Z -> list nat.
-  (** multiway_merge_base<Stable, Sentinels>(seqs, length) -> (output, elements consumed per sequence) *)
-  Variable seqmerge : bool -> bool -> list (list A) -> nat -> list A * list nat.
+  (** multiway_merge_base<Stable, Sentinels>(seqs, length) -> (output, elements consumed per sequence).
+      Second argument: [None] = Sentinels false; [Some sents] = Sentinels true, [sents] being the sentinel
+      element stored behind each sequence (the caller's obligation for the *_sentinels entry points). *)
+  Variable seqmerge : bool -> option (list A) -> list (list A) -> nat -> list A * list nat.
 
   Definition sum (l : list nat) : nat := fold_right Nat.add 0 l.
   Definition lens (seqs : list (list A)) : list nat := map (@length A) seqs.
@@ -126,7 +128,7 @@ Section Model.
     if negb (all_le b b') then None
     else if size <? tp then None
     else let n := Nat.min (sum b' - sum b) (size - tp) in
-         Some {| tpos := tp; tlen := n; tout := fst (seqmerge stable false (chunk seqs b b') n) |}.
+         Some {| tpos := tp; tlen := n; tout := fst (seqmerge stable None (chunk seqs b b') n) |}.
 
   Fixpoint run_threads (stable : bool) (seqs : list (list A)) (size : nat) (bounds : list (list nat))
     : option (list thread_res) :=
@@ -188,7 +190,7 @@ Section Model.
   Definition goes_parallel (sw : switches) (k size p : nat) : bool :=
     negb (force_seq sw) && (force_par sw || ((1 <? p) && (min_k sw <=? k) && (min_n sw <=? size))).
 
-  Definition pmwm (sw : switches) (stable sentinels sampling : bool) (seqs : list (list A))
+  Definition pmwm (sw : switches) (stable : bool) (sentinels : option (list A)) (sampling : bool) (seqs : list (list A))
              (size p os : nat) : option pres :=
     match seqs with
     | [] => Some {| p_threads := []; p_cursors := []; p_ret := 0 |}
@@ -224,7 +226,7 @@ Section Ref.
 
   Definition partition_ref (seqs : list (list A)) (r : Z) : list nat :=
     counts (length seqs) (firstn (Z.to_nat r) (smerge_t seqs)).
-  Definition seqmerge_ref (stable sentinels : bool) (seqs : list (list A)) (n : nat) : list A * list nat :=
+  Definition seqmerge_ref (stable : bool) (sentinels : option (list A)) (seqs : list (list A)) (n : nat) : list A * list nat :=
     let m := firstn n (smerge_t seqs) in (map fst m, counts (length seqs) m).
 
   Definition pmwm_ref := pmwm ltb partition_ref seqmerge_ref.
@@ -233,7 +235,7 @@ End Ref.
 (** The instance the correspondence runs: elements are (key, (sequence, position)) compared by key. *)
 Definition elem : Type := nat * (nat * nat).
 Definition elem_ltb (a b : elem) : bool := fst a <? fst b.
-Definition run_model (fseq fpar : bool) (mink minn : nat) (stable sentinels sampling : bool)
+Definition run_model (fseq fpar : bool) (mink minn : nat) (stable : bool) (sentinels : option (list elem)) (sampling : bool)
            (seqs : list (list elem)) (size p os : nat) : option (@pres elem) :=
   pmwm_ref elem_ltb {| force_seq := fseq; force_par := fpar; min_k := mink; min_n := minn |}
            stable sentinels sampling seqs size p os.
